@@ -70,7 +70,7 @@ Definition bad_op (e : engine) (st : sstate) (o : op) : bool :=
   match o with
   | ORemove a n =>
       match dep st a n with
-      | Some old => negb (has_enum (s_shape old)) && kmem a n (added st)
+      | Some old => negb (src_has_enum old) && kmem a n (added st)
       | None => false
       end
   | OBorrow a n =>
@@ -135,7 +135,7 @@ Proof.
   - (* update *)
     destruct (dep s a n) as [old|] eqn:Ed; [|auto].
     destruct (check_src n src) as [f|]; [auto|].
-    destruct (compat (s_shape old) (s_shape src)); simpl; [|auto].
+    destruct (src_compat old src); simpl; [|auto].
     split; auto. split; auto. split; [|auto]. intros a' n'. specialize (Hk a' n').
     unfold key_inv in *. cbn [codes vals pending leaked dep added touched]. rewrite !upd2_eq.
     destruct (keq a n a' n') eqn:E.
@@ -185,7 +185,7 @@ Proof.
     unfold c_remove. rewrite (Rel_codes _ _ a n HR).
     destruct (dep s a n) as [old|] eqn:Ed; [|auto].
     simpl in Hbad. rewrite Ed in Hbad.
-    destruct (has_enum (s_shape old)); [auto|]. simpl in Hbad.
+    destruct (src_has_enum old); [auto|]. simpl in Hbad.
     split; auto. split; auto.
     destruct (Hk a n) as [Hc Hp]. rewrite Hbad in Hp.
     assert (Hpf : match p_find (pending c) a n with Some (Some _) => true | _ => false end = false).
@@ -332,12 +332,12 @@ Qed.
 Theorem update_success st a n src ev st' :
   s_step st (OUpdate a n src) = (RUnit, ev, st') ->
   exists old, dep st a n = Some old /\ check_src n src = None /\
-              compat (s_shape old) (s_shape src) = true /\ ev = [EvUpdated a n src] /\
+              src_compat old src = true /\ ev = [EvUpdated a n src] /\
               dep st' = upd2 (dep st) a n (Some src).
 Proof.
   simpl. unfold s_update, deployable. destruct (dep st a n) as [old|]; [|discriminate].
   destruct (check_src n src); [discriminate|].
-  destruct (compat (s_shape old) (s_shape src)) eqn:E; [|discriminate].
+  destruct (src_compat old src) eqn:E; [|discriminate].
   intro H. inv H. exists old. auto.
 Qed.
 
@@ -360,7 +360,7 @@ Theorem try_update_never_fails st a n src : is_fail (fst (fst (s_step st (OTryUp
 Proof. simpl. destruct (s_update st a n src) as [[r e] s']. now destruct (is_fail r). Qed.
 
 Theorem remove_enum_refused st a n old :
-  dep st a n = Some old -> has_enum (s_shape old) = true ->
+  dep st a n = Some old -> src_has_enum old = true ->
   s_step st (ORemove a n) = (RFail FRemoval, [], st).
 Proof. intros H1 H2. simpl. now rewrite H1, H2. Qed.
 
@@ -368,12 +368,25 @@ Theorem remove_semantics st a n :
   match dep st a n with
   | None => s_step st (ORemove a n) = (RNone, [], st)
   | Some old =>
-      has_enum (s_shape old) = false ->
+      src_has_enum old = false ->
       exists st', s_step st (ORemove a n) = (RCode old, [EvRemoved a n old], st') /\
                   dep st' = upd2 (dep st) a n None
   end.
 Proof.
   simpl. destruct (dep st a n) as [old|]; auto. intro H. rewrite H. eexists. split; reflexivity.
+Qed.
+
+(* the removal test is independent of the order of the nested declarations: it holds exactly
+   when some nested declaration is an enum *)
+Definition declares_enum (s : source) : Prop := exists d, In d (s_decls s) /\ d_kind d = KEnum.
+Theorem has_enum_iff s : src_has_enum s = true <-> declares_enum s.
+Proof.
+  unfold src_has_enum, declares_enum. induction (s_decls s) as [|d r IH]; simpl.
+  - split; [discriminate|]. intros (d & [] & _).
+  - unfold decl_contains_enums. destruct (d_kind d) eqn:E; simpl; rewrite ?IH;
+      try (split; [intros (x & Hx & Hk); exists x; auto
+                  |intros (x & [<-|Hx] & Hk); [congruence|exists x; auto]]).
+    split; auto. intros _. exists d. auto.
 Qed.
 
 (* reads *)
@@ -453,7 +466,7 @@ Qed.
 (* ------------------------------------------------------------------ the defects of the unchanged tree *)
 Definition refinement_statement : Prop := forall e h, run_code e h = run_spec h.
 
-Definition vsrc (n sh v : Z) : source := mkSrc SValid n sh v.
+Definition vsrc (n sh v : Z) : source := mkSrc SValid n sh [] v.
 
 (* interpreter: borrow of a contract added in the same transaction *)
 Definition crash_history : list (list op) := [[OAdd 1 0 (vsrc 0 0 1); OBorrow 1 0; OGet 1 0]].
